@@ -59,7 +59,8 @@ bool Memory::in_use(uint32_t address)
 
   while (page != nullptr)
   {
-    if (address >= page->address && address < page->address + PAGE_SIZE)
+    if (address >= page->address &&
+        address < (uint64_t)page->address + PAGE_SIZE)
     {
       return true;
     }
@@ -76,7 +77,8 @@ uint32_t Memory::get_page_address_min(uint32_t address)
 
   while (page != nullptr)
   {
-    if (address >= page->address && address < page->address + PAGE_SIZE)
+    if (address >= page->address &&
+        address < (uint64_t)page->address + PAGE_SIZE)
     {
       return page->address + page->offset_min;
     }
@@ -95,7 +97,8 @@ uint32_t Memory::get_page_address_max(uint32_t address)
 
   while (page != nullptr)
   {
-    if (address >= page->address && address < page->address + PAGE_SIZE)
+    if (address >= page->address &&
+        address < (uint64_t)page->address + PAGE_SIZE)
     {
       return page->address + page->offset_max;
     }
@@ -114,7 +117,8 @@ uint8_t Memory::read8(uint32_t address)
 
   while (page != nullptr)
   {
-    if (address >= page->address && address < page->address + PAGE_SIZE)
+    if (address >= page->address &&
+        address < (uint64_t)page->address + PAGE_SIZE)
     {
       return page->bin[address-page->address];
     }
@@ -224,7 +228,8 @@ int Memory::read_debug(uint32_t address)
 
   while (page != nullptr)
   {
-    if (address >= page->address && address < page->address + PAGE_SIZE)
+    if (address >= page->address &&
+        address < (uint64_t)page->address + PAGE_SIZE)
     {
       return page->debug_line[address-page->address];
     }
@@ -246,7 +251,8 @@ void Memory::write_debug(uint32_t address, int line)
 
   while (page != nullptr)
   {
-    if (address >= page->address && address < page->address + PAGE_SIZE)
+    if (address >= page->address &&
+        address < (uint64_t)page->address + PAGE_SIZE)
     {
       break;
     }
@@ -273,7 +279,8 @@ void Memory::write(uint32_t address, uint8_t data, int line)
 
   while (page != nullptr)
   {
-    if (address >= page->address && address < page->address + PAGE_SIZE)
+    if (address >= page->address &&
+        address < (uint64_t)page->address + PAGE_SIZE)
     {
       break;
     }
